@@ -213,17 +213,20 @@ def gen_tjgrid(rng, thorough):
     multiple of 8 up to 64 in both directions: acceptance must follow the DESTINATION iMCU grid and the result
     must have the requested size"""
     out = []
-    NONSTD_TJ = {"ns444-2x1": [(2, 1)] * 3, "ns444-1x3": [(1, 3)] * 3, "ns422": [(2, 2), (1, 2), (1, 2)], "ns440": [(2, 2), (2, 1), (2, 1)]}
+    # regression family (F55, fixed by 7d69fcb): layouts getSubsamp() maps to a TJSAMP level whose tjMCU grid is
+    # finer than the image's iMCU grid; origins off the iMCU grid must be refused
+    NONSTD_TJ = {"ns444-2x1": [(2, 1)] * 3, "ns444-1x2": [(1, 2)] * 3, "ns444-3x1": [(3, 1)] * 3, "ns444-1x3": [(1, 3)] * 3,
+                 "ns422": [(2, 2), (1, 2), (1, 2)], "ns440": [(2, 2), (2, 1), (2, 1)]}
     for name in ("441", "411", "422", "440") + tuple(sorted(NONSTD_TJ)):
         fac = STD[name] if name in STD else NONSTD_TJ[name]
-        if name not in STD and not thorough and rng.chance(1, 2):
-            continue
         for op in ((3, 4, 5, 7, 0, 6) if thorough else (rng.choice([3, 4]), rng.choice([5, 7]), rng.choice([0, 1, 2, 6]))):
             W, H = rng.choice([(72, 80), (80, 72), (96, 72), (75, 83)])
             dw, dh = (H, W) if op in TRANSPOSING else (W, H)
             origins = [(a, b) for a in range(0, 65, 8) for b in range(0, 65, 8)]
             if not thorough:
                 origins = [o for o in origins if o[0] % 32 == 0 or o[1] % 32 == 0 or rng.chance(1, 4)]
+                if name not in STD:
+                    origins = [o for o in origins if rng.chance(1, 2)]
             seed = rng.next() % (1 << 40)
             for cx, cy in origins:
                 cw = 0 if rng.chance(1, 3) else rng.range(1, dw - cx)
@@ -540,10 +543,11 @@ def run_subsamp(ctx, exe, drv):
 
 def run_cases(ctx, cases, exes, drv, flavours):
     """in batches, so that the dumps of a thorough run never sit in memory all at once"""
-    tot = {"validated": 0, "disagree": 0}
+    tot = {"validated": 0, "disagree": 0, "split": {}}
     B = 1500
     for k in range(0, len(cases), B):
         run_batch(ctx, cases[k:k + B], exes, drv, flavours, tot, k)
+    ctx.cov["case_split_distribution"] = dict(sorted(tot["split"].items()))
     ctx.cov["traces_validated_against_impl"] = tot["validated"]
     ctx.cov["model_impl_disagreements"] = tot["disagree"]
     ctx.cov["rule"] = ("sources: 7 TJSAMP layouts + 12 non-standard factor sets (1..4, fractional ratios, Y not maximal, RGB/CMYK/YCCK, "
@@ -675,10 +679,29 @@ def run_batch(ctx, cases, exes, drv, flavours, tot, base):
                     bad.append(("align-refused", "crop refused as misaligned although its origin is on the %dx%d iMCU grid of the destination"
                                 % dst_imcu(fac, src["cs"], [x for x in xfs if x[4]][0])))
                 if res.startswith("ok") and mis:
-                    bad.append(("align-accepted" if std_l else "align-accepted:tj-nonstd444",
+                    bad.append(("align-accepted",
                                 "crop with origin (%d,%d) off the %dx%d iMCU grid of the destination was accepted%s"
                                 % ((mis[0][9], mis[0][11]) + dst_imcu(fac, src["cs"], mis[0]) +
                                    ("" if std_l else " (non-standard sampling factors %s that getSubsamp() maps to a TJSAMP level)" % fac,))))
+            # which side of the model's case splits this stage is on (printed into the evidence)
+            for x in xfs:
+                iw_, ih_ = dst_imcu(fac, src["cs"], x)
+                dw_, dh_ = (src["H"], src["W"]) if x[0] in TRANSPOSING else (src["W"], src["H"])
+                tags = ["op=" + OPS[x[0]],
+                        "dst-right-edge=" + ("partial" if dw_ % iw_ else "whole") + ("/<1iMCU" if dw_ < iw_ else ""),
+                        "dst-bottom-edge=" + ("partial" if dh_ % ih_ else "whole") + ("/<1iMCU" if dh_ < ih_ else ""),
+                        "trim=%d" % x[2], "perfect=%d" % x[1], "gray=%d" % x[3],
+                        "crop=" + ("none" if not x[4] else "x0y0" if not (x[9] or x[11]) else
+                                   ("aligned" if x[9] % iw_ == 0 and x[11] % ih_ == 0 else "unaligned") +
+                                   ("+x" if x[9] else "") + ("+y" if x[11] else "")),
+                        "ncomp=%d" % len(fac), "single-output-comp=%d" % (1 if (len(fac) == 1 or (x[3] and src["cs"] == 3 and len(fac) == 3)) else 0)]
+                if x[0] == 1:
+                    tags.append("hflip-routine=" + ("do_flip_h" if (path == 0 and len(xfs) > 1) or (x[4] and x[11] >= ih_) else "in-place"))
+                if x[4] and x[10] == 2 or x[4] and x[12] == 2:
+                    tags.append("crop-negative-offset")
+                tags.append("result=" + (res.split()[1] if res.startswith("err ") else "ok"))
+                for tg in tags:
+                    tot["split"][tg] = tot["split"].get(tg, 0) + 1
             last_out = outs_i[0] if outs_i else None
             if not res.startswith("ok"):
                 complete = False
@@ -686,7 +709,7 @@ def run_batch(ctx, cases, exes, drv, flavours, tot, base):
             key = "%s:%s" % (["tj", "jt", "inj"][path], kind)
             for cls, b in bad:
                 ctx.violation(b, {"case": line, "stage": si, "identity": meta.get("identity", False), "impl": res[:300]},
-                              signature=cls if "nonstd" in cls else "%s:%s:%s" % (cls, ["tj", "jt", "inj"][path], OPS[xfs[0][0]]))
+                              signature="%s:%s:%s" % (cls, ["tj", "jt", "inj"][path], OPS[xfs[0][0]]))
             if mres is not None:
                 validated += 1
                 if mres != res and not mres.startswith("err CropExt"):
